@@ -1,5 +1,7 @@
 """C02 — the returned Pareto front is complete and contains no dominated mapping."""
 
+from hypothesis import strategies as st
+
 from vf.core import Violation, close, drive, hash32
 from vf.gen import spec as G
 from vf.gen import universe as U
@@ -12,7 +14,10 @@ RULE = (
     "the documented mapspace is enumerated completely and evaluated with evaluate_mapping. (a) completeness: every valid "
     "universe member is weakly dominated by some returned row on the requested objectives (energy, latency, and per-memory "
     "peak usage when RESOURCE_USAGE is requested); (b) no returned row strictly dominates another; (c) no two returned rows "
-    "have identical objective vectors. Non-trivial: the exact Pareto front of the universe has >= 3 points. Distinct = "
+    "have identical objective vectors. A second, front-only family checks (b) and (c) on specs too large to enumerate "
+    "(1-2 Einsums, 2-3 memory levels, ENERGY|LATENCY|RESOURCE_USAGE) whose energies are scaled by 1..2^20 and whose "
+    "capacities are powers of two half the time, so that the float32 sort keys of the Pareto filter tie between rows "
+    "differing only in a usage fraction (non-trivial there: >= 3 returned rows). Non-trivial: the exact Pareto front of the universe has >= 3 points. Distinct = "
     "distinct spec descriptor."
 )
 ASSUMPTIONS = [
@@ -39,6 +44,8 @@ def strictly_dominates(a, b):
 
 
 def check(desc, col):
+    if desc.get("family") == "front":
+        return check_front(desc, col)
     with_usage = "RESOURCE_USAGE" in desc["mapper"]["metrics"]
     mems = [n["name"] for n in desc["nodes"] if n["type"] == "Memory" and n["size"] != "inf"]
     spec = G.build_spec(desc)
@@ -86,7 +93,64 @@ def check(desc, col):
                             f"{len(rows)} returned rows (first rows: {rows[:4]})", key="front-incomplete")
 
 
+# ---------------------------------------------------------------------------------------------------------
+# front-only family: clauses (b) and (c) on specs too large to enumerate, with energies scaled up so that the
+# float32 sort keys of the Pareto filter tie between rows that differ only in a usage fraction
+# ---------------------------------------------------------------------------------------------------------
+
+@st.composite
+def front_cases(draw):
+    sp = draw(G.specs(shapes=("matmul", "matmul", "chain2", "matvec", "elementwise2"), levels=(2, 3, 3),
+                      metrics=("ENERGY|LATENCY|RESOURCE_USAGE",), finite_tp=True,
+                      bound_pool=[2, 3, 4, 4, 4, 6, 8], max_ops=600))
+    scale = draw(st.sampled_from([1, 128, 4096, 2 ** 16, 2 ** 20]))
+    pow2 = draw(st.booleans())
+    for n in sp["nodes"]:
+        for act in ("read", "write", "compute"):
+            if act in n:
+                n[act] = [G.num(n[act][0]) * scale, n[act][1]]
+        if pow2 and n["type"] == "Memory" and n["size"] != "inf":
+            # a power-of-two capacity: usage fractions are exact binary fractions, so equal energies and latencies with
+            # different usages give exactly tied float32 sort keys once the energies are large
+            n["size"] = 2 ** max(3, int(G.num(n["size"])).bit_length())
+    sp["family"] = "front"
+    sp["scale"] = scale
+    return sp
+
+
+def check_front(desc, col):
+    mems = [n["name"] for n in desc["nodes"] if n["type"] == "Memory" and n["size"] != "inf"]
+    try:
+        m = G.run_mapper(G.build_spec(desc))
+    except G.Infeasible:
+        col.case(desc, False, ["family:front", "infeasible"])
+        return
+    except Exception as e:  # noqa: BLE001
+        col.case(desc, False, ["family:front", "crash"])
+        raise Violation(f"map_workload_to_arch raised {type(e).__name__}: {str(e)[:300]}", key=f"mapper-crash:{type(e).__name__}")
+    df = m.data
+    usage = m.resource_usage(list_if_one_mapping=True)
+    rows = []
+    for i in range(len(df)):
+        u = {k: float(v[i]) for k, v in usage.items()}
+        rows.append(vec(float(df["Total<SEP>energy"].iloc[i]), float(df["Total<SEP>latency"].iloc[i]), u, mems, True))
+    emax = max(r[0] for r in rows)
+    col.case(desc, len(rows) >= 3, ["family:front", f"returned_rows:{min(len(rows), 6)}", f"scale:{desc['scale']}",
+                                    "energy>=2^22" if emax >= 2 ** 22 else "energy<2^22", f"shape:{desc['shape']}",
+                                    f"finite_mems:{len(mems)}"],
+             sample={"family": "front", "bounds": desc["bounds"], "scale": desc["scale"], "rows": rows[:5], "n_rows": len(rows)})
+    for i, a in enumerate(rows):
+        for j, b in enumerate(rows):
+            if i == j:
+                continue
+            if strictly_dominates(a, b):
+                raise Violation(f"returned row {i} {a} strictly dominates returned row {j} {b}", key="returned-dominated")
+            if i < j and all(close(x, y, rel=1e-6, abs_=1e-9) for x, y in zip(a, b)):
+                raise Violation(f"returned rows {i} and {j} have identical objective vectors {a}", key="returned-duplicate")
+
+
 N = {"quick": 32, "thorough": 256}
+N_FRONT = {"quick": 96, "thorough": 1600}
 NSHARDS = 16
 QUICK_BUDGET_S = 500
 THOROUGH_BUDGET_S = 3000
@@ -101,6 +165,8 @@ def run_shard(shard, col):
     drive(U.tiny_specs(metrics=("ENERGY|LATENCY", "ENERGY|LATENCY|RESOURCE_USAGE", "ENERGY|LATENCY|RESOURCE_USAGE"),
                        max_universe=mu, conflict=True), check,
           n=shard["n"], seed=hash32(shard["seed"], "C02", shard["k"]), col=col, shrink=False)
+    drive(front_cases(), check, n=max(1, N_FRONT[shard["tier"]] // NSHARDS), seed=hash32(shard["seed"], "C02front", shard["k"]),
+          col=col, shrink=False)
 
 
 def replay(desc, col):
